@@ -15,6 +15,7 @@ def main():
     tier = os.environ.get("VERIF_TIER", arg)
     if arg in ("quick", "thorough"):
         tier = arg
+    os.environ["HY_EFFECTIVE_TIER"] = tier
     sys.exit(mod.main(tier, seed))
 
 main()
